@@ -258,3 +258,105 @@ Proof.
     + intros x c Hx Hg. eapply fresh_closed_b_sound; eauto.
   - apply heap_wf_b_sound. exact H1.
 Qed.
+
+(* ------------------------------------------------------------------ frame with separation *)
+(* a write into the part of the heap reachable from b, storing only things reachable from b, keeps a and b
+   separated and leaves everything readable from a unchanged *)
+Lemma reach_after_local_write : forall h b x c z,
+    Reach h b x -> (forall y, In y (crefs c) -> Reach h b y) -> Reach (upd h x c) b z -> Reach h b z.
+Proof.
+  intros h b x c z Hx Hc Hr.
+  assert (forall w, Reach h b w -> Reach (upd h x c) w z -> Reach h b z) as Hgen.
+  { clear Hr. intros w Hw Hwz. induction Hwz as [w|w y z [cl [Hg Hin]] Hyz IH]; auto.
+    apply IH. destruct (Nat.eq_dec w x) as [->|Hne].
+    - destruct (Nat.lt_ge_cases x (List.length h)) as [Hlt|Hge].
+      + rewrite get_upd_eq in Hg by auto. inv Hg. auto.
+      + apply get_lt in Hg. rewrite upd_length in Hg. lia.
+    - rewrite get_upd_ne in Hg by auto. eapply reach_trans; [exact Hw|]. apply reach_edge. exists cl. auto. }
+  apply (Hgen b); auto. constructor.
+Qed.
+
+Theorem frame_separated : forall h a b x c fuel,
+    Separated h a b -> Reach h b x -> (forall y, In y (crefs c) -> Reach h b y) ->
+    unfold (upd h x c) fuel (Ref a) = unfold h fuel (Ref a) /\ Separated (upd h x c) a b.
+Proof.
+  intros h a b x c fuel Hs Hx Hc.
+  assert (~ Reach h a x) as Hn by (intro Hax; exact (Hs x Hax Hx)).
+  split; [apply frame_write; auto|].
+  intros z Hza Hzb. apply (reach_frame h a x c z Hn) in Hza.
+  apply (reach_after_local_write h b x c z Hx Hc) in Hzb. exact (Hs z Hza Hzb).
+Qed.
+
+Lemma separated_sym : forall h a b, Separated h a b -> Separated h b a.
+Proof. intros h a b H x Hb Ha. exact (H x Ha Hb). Qed.
+
+(* ------------------------------------------------------------------ Reaction.copy: the result is fresh *)
+Lemma set_attr_length : forall h a s v, List.length (set_attr h a s v) = List.length h.
+Proof. intros. unfold set_attr, put. destruct (get h a); auto. apply upd_length. Qed.
+
+Lemma set_attr_get_ne : forall h a b s v, a <> b -> get (set_attr h a s v) b = get h b.
+Proof. intros. unfold set_attr, put. destruct (get h a); auto. apply get_upd_ne; auto. Qed.
+
+Definition val_lt (n : nat) (v : value) : Prop := match v with At _ => True | Ref a => a < n end.
+
+Lemma fold_set_model_length : forall v l h, List.length (fold_left (set_model_of v) l h) = List.length h.
+Proof.
+  intros v l. induction l as [|x r IH]; intros h; cbn; auto. rewrite IH. destruct x; cbn; auto. apply set_attr_length.
+Qed.
+
+Lemma fold_set_model_get : forall n v l h b,
+    (forall x, In x l -> val_lt n x) -> n <= b -> get (fold_left (set_model_of v) l h) b = get h b.
+Proof.
+  intros n v l. induction l as [|x r IH]; intros h b Hl Hb; cbn; auto.
+  rewrite IH; auto; [|intros; apply Hl; cbn; auto].
+  destruct x as [s|xa]; cbn; auto. apply set_attr_get_ne. specialize (Hl (Ref xa) (or_introl eq_refl)). cbn in Hl. lia.
+Qed.
+
+Lemma dict_keys_lt : forall h ov x, heap_wf h -> (forall d, ov = Some (Ref d) -> d < List.length h) ->
+  (forall d c, ov = Some (Ref d) -> get h d = Some c -> forall y, In y (crefs c) -> y < List.length h) ->
+  In x (dict_keys h ov) -> val_lt (List.length h) x.
+Proof.
+  intros h ov x Hwf Hd Hc Hin. unfold dict_keys in Hin. destruct ov as [[s|d]|]; try contradiction.
+  destruct (get h d) as [c|] eqn:Hg; [|contradiction]. destruct x as [s|xa]; cbn; auto.
+  eapply Hc; eauto. unfold keys in Hin. destruct (is_object (ckind c)); [contradiction|].
+  apply in_map_iff in Hin as [kv [Hk Hkv]]. unfold crefs. apply in_flat_map. exists kv. split; auto.
+  unfold irefs. rewrite Hk. cbn. auto.
+Qed.
+
+Theorem reaction_copy_fresh : forall T h r h' r',
+    heap_wf h -> reaction_copy T h r = (h', r', true) ->
+    List.length h <= r' /\
+    (forall a c, List.length h <= a -> get h' a = Some c -> cell_ok (List.length h) c) /\
+    (forall x, Reach h' r' x -> List.length h <= x).
+Proof.
+  intros T h r h' r' Hwf H. unfold reaction_copy in H. destruct (get h r) as [rc|] eqn:Hr; [|inv H].
+  set (n := List.length h) in *.
+  set (model := match attr rc "_model" with Some v => v | None => None_ end) in *.
+  set (mets := dict_keys h (attr rc "_metabolites")) in *.
+  set (gns := dict_keys h (attr rc "_genes")) in *.
+  set (h3 := fold_left (set_model_of None_) gns (fold_left (set_model_of None_) mets (set_attr h r "_model" None_))) in *.
+  destruct (deep_copy T h3 (Ref r)) as [h4 v] eqn:E.
+  assert (List.length h3 = n) as Hl3.
+  { unfold h3. rewrite !fold_set_model_length. apply set_attr_length. }
+  destruct (deep_copy_ext _ _ _ _ _ E) as [HE Hv]. rewrite Hl3 in HE, Hv.
+  destruct v as [s|x]; inv H. cbn in Hv.
+  assert (forall l, (l = mets \/ l = gns) -> forall x, In x l -> val_lt n x) as Hlt.
+  { intros l Hl x Hx.
+    assert (forall nm x, In x (dict_keys h (attr rc nm)) -> val_lt n x) as Hk.
+    { intros nm y Hy. unfold dict_keys in Hy. destruct (attr rc nm) as [[s|d]|] eqn:Ha; try contradiction.
+      destruct (get h d) as [c|] eqn:Hg; [|contradiction]. destruct y as [s|ya]; cbn; auto.
+      unfold keys in Hy. destruct (is_object (ckind c)); [contradiction|].
+      apply in_map_iff in Hy as [kv [Hk Hkv]]. eapply (Hwf d c ya Hg).
+      unfold crefs. apply in_flat_map. exists kv. split; auto. unfold irefs. rewrite Hk. cbn. auto. }
+    destruct Hl; subst l; eapply Hk; eauto. }
+  assert (r < n) as Hrn by (eapply get_lt; eauto).
+  assert (forall a c, n <= a ->
+            get (fold_left (set_model_of model) gns (fold_left (set_model_of model) mets (set_attr h4 r "_model" model))) a = Some c ->
+            cell_ok n c) as Hnew.
+  { intros a c Ha Hg. rewrite (fold_set_model_get n) in Hg; auto; [|apply (Hlt gns); auto].
+    rewrite (fold_set_model_get n) in Hg; auto; [|apply (Hlt mets); auto].
+    rewrite set_attr_get_ne in Hg by lia. eapply (ext_new _ _ _ HE); eauto. }
+  split; [auto|split; [exact Hnew|]].
+  intros y Hy. eapply (reach_closed _ (fun z => n <= z)); [|exact Hv|exact Hy].
+  intros a b Ha [c [Hg Hin]]. eapply cell_ok_crefs; [|exact Hin]. eapply Hnew; eauto.
+Qed.
